@@ -1042,3 +1042,111 @@ def s_or_value_factory(ctx):
 
 SCENARIOS.append(Scenario("C06.pattern_ir.or_value", s_or_value_factory, [(PREL, "OrValue"), (PREL, "OrValue.make_op_id_or_pattern")], kind="bounded",
                           bound="2-3 alternatives (node outputs with own / shared / unknown operator, plain variables)"))
+
+
+# ------------------------------------------------------------------ _valid_to_replace for ANY match size (deductive) ---
+
+def s_valid_to_replace_anysize(ctx):
+    """_valid_to_replace for any number of matched nodes, outputs per node and uses per value (three nested loops, each with an inductive
+    invariant stated for one arbitrary (Skolem) triple node i0 / output j0 / use u0):
+      True  => the value (i0, j0), unless it is a pattern output, is no graph output and its use u0 is by a matched node;
+      False => some value that is not a pattern output is a graph output or has a consumer outside the match (the witness is the
+               iteration at which the real code returns)."""
+    import onnx_ir as ir
+    from onnxscript.rewriter import _matcher
+    from pyvc.interp import LoopSpec
+    from pyvc.values import SSeq, Obj
+    I = Interp(ctx)
+    I_ = z3.IntSort()
+    M = ctx.int("matched_nodes")
+    ctx.assume(M >= 0)
+    nout = z3.Function("n_outputs", I_, I_)
+    nuses = z3.Function("n_uses", I_, I_, I_)
+    isout = z3.Function("is_pattern_output", I_, I_, z3.BoolSort())
+    go = z3.Function("is_graph_output", I_, I_, z3.BoolSort())
+    inside = z3.Function("consumer_is_matched", I_, I_, I_, z3.BoolSort())
+    i0, j0, u0 = ctx.int("i0"), ctx.int("j0"), ctx.int("u0")
+    ctx.assume(z3.And(i0 >= 0, i0 < M, j0 >= 0, j0 < nout(i0), u0 >= 0, u0 < nuses(i0, j0)))
+    ctx.witness.update(M=M, i0=i0, j0=j0, u0=u0)
+
+    class Matched:
+        """the matched-node sequence as the code uses it: iteration (a sequence of symbolic length) and `consumer in matched_nodes`"""
+    nodes_seq = None
+
+    def consumer(i, j, u):
+        c = SObj(ir.Node, "consumer")
+        c.is_matched = inside(i, j, u)
+        return c
+
+    def value(i, j):
+        v = SObj(ir.Value, "value")
+        v.ij = (i, j)
+
+        def igo():
+            raise AssertionError
+
+        def uses():
+            raise AssertionError
+        I.models[igo] = lambda interp, i=i, j=j: SBool(go(i, j))
+        I.models[uses] = lambda interp, i=i, j=j: SSeq(z3.If(nuses(i, j) > 0, nuses(i, j), 0), lambda u: (consumer(i, j, z3.simplify(u)), 0), name="uses")
+        v.fields.update(is_graph_output=igo, uses=uses)
+        return v
+
+    def node(i):
+        n = SObj(ir.Node, "matched")
+        n.fields["outputs"] = SSeq(z3.If(nout(i) > 0, nout(i), 0), lambda j: value(i, z3.simplify(j)), name="outputs")
+        n.i = i
+        return n
+
+    class Seq(SSeq):
+        pass
+    matched = Seq(M, lambda i: node(z3.simplify(i)), name="matched_nodes")
+
+    class OutputValues:
+        def __contains__(self, v):
+            return SBool(isout(*v.ij))
+    OutputValues.__contains__._pyvc_native = True
+    outs = OutputValues()
+    # `consumer in matched_nodes`: membership in the matched sequence is what `consumer_is_matched` denotes
+    orig_contains = I.contains
+
+    def contains(container, item):
+        if container is matched and isinstance(item, SObj) and hasattr(item, "is_matched"):
+            return SBool(item.is_matched)
+        if container is outs:
+            return SBool(isout(*item.ij))
+        return orig_contains(container, item)
+    I.contains = contains
+
+    def good(i, j, u):
+        return z3.Implies(z3.Not(isout(i, j)), z3.And(z3.Not(go(i, j)), inside(i, j, u)))
+
+    def inv_nodes(interp, env, k, pre, it):
+        return [("triple_checked_once_its_node_is_passed", z3.Implies(k > i0, good(i0, j0, u0)))]
+
+    def inv_outputs(interp, env, k, pre, it):
+        n = env.lookup("n")
+        return [("triple_checked_once_its_output_is_passed", z3.Implies(z3.And(n.i == i0, k > j0), good(i0, j0, u0)))]
+
+    def inv_uses(interp, env, k, pre, it):
+        v = env.lookup("v")
+        i, j = v.ij
+        return [("use_checked_once_it_is_passed", z3.Implies(z3.And(i == i0, j == j0, k > u0), inside(i0, j0, u0)))]
+    I.loops[("_valid_to_replace", 0)] = LoopSpec({}, inv_nodes)
+    I.loops[("_valid_to_replace", 1)] = LoopSpec({}, inv_outputs)
+    I.loops[("_valid_to_replace", 2)] = LoopSpec({}, inv_uses)
+    r = I.call(_matcher._valid_to_replace, [matched, outs])
+    if I.truth(r):
+        ctx.cover("valid_to_replace.any_size.true")
+        ctx.check("C06.matcher.valid_to_replace.any_size.true_only_if_no_intermediate_value_is_a_graph_output_or_used_outside", good(i0, j0, u0), CL_REPL)
+    else:
+        ctx.cover("valid_to_replace.any_size.false")
+        a, b, c = z3.Ints("a b c")
+        bad = z3.Exists([a, b, c], z3.And(a >= 0, a < M, b >= 0, b < nout(a), z3.Not(isout(a, b)),
+                                          z3.Or(go(a, b), z3.And(c >= 0, c < nuses(a, b), z3.Not(inside(a, b, c))))))
+        ctx.check("C06.matcher.valid_to_replace.any_size.false_only_with_a_witness", bad, CL_REPL)
+
+
+SCENARIOS.append(Scenario("C06.matcher.valid_to_replace[any size]", s_valid_to_replace_anysize, [(MREL, "_valid_to_replace")],
+                          trusted=["ir.Value.uses() / is_graph_output() (onnx_ir): the consumers of a value, whether it is an output of its graph"],
+                          assumptions=["three nested loop invariants stated at one arbitrary (Skolem) triple; termination not proved"]))
